@@ -149,7 +149,9 @@ def run_kernels(F, R):
         if n not in fs:
             raise AnalysisBroken("anchor %s(%s) not found in %s" % (n[0], n[1], FILE))
     from .rules_c11 import _cases
-    E = Evaluator(F, inline=lambda n, g: False, max_depth=2)
+    # file-local helpers (a kernel split off into its own function) are looked through
+    E = Evaluator(F, inline=lambda n, g: g.get("file") == "src/gm2_dilog.cpp" and "(anonymous namespace)" in str(g.get("name"))
+                  and not str(g.get("name")).split("::")[-1].startswith(("horner", "log1p")), max_depth=3)
 
     # =================================================================== real dilogarithm
     f = fs[("dilog", "double")]
@@ -702,6 +704,10 @@ def _complex_dilog(F, R, f):
     from .terms import Frame
     fr = Frame(E, f, {}, ("this",), 0)
     val = fr.fz(fr.e(arr))
+    # std::array<T, N> bf = {{ ... }}: the table is the inner list
+    while isinstance(val, tuple) and val[:2] == ("call", "initlist") and len(val[2]) == 1 and \
+            isinstance(val[2][0], tuple) and val[2][0][:2] == ("call", "initlist"):
+        val = val[2][0]
     if not (isinstance(val, tuple) and val[:2] == ("call", "initlist")):
         R.soft_broken("K4: bf is not a constant initialiser list")
         return
